@@ -84,6 +84,14 @@ T = {
     "C12-F": ("C12", "orientation rule 'directed path' replaced by a two-step look-up that accepts an undirected first step", ">= 5 nodes and an unlucky node iteration order", ["C12"], False),
     "C13-E": ("C13", "bp back-end: adjustment weights as product of single-variable beliefs", "inference_algo='bp' with >= 2 dependent adjustment variables", ["C13"], False),
     "C13-F": ("C13", "is_valid_adjustment_set removes proper-causal edges from the user's model in place and restores them on the True path only", "a False answer on a graph with a directed X -> ... -> Y path, then any later use", ["C13"], False),
+    "C14-E": ("C14", "clique-graph edge weight = separator table size instead of separator variable count", "a cardinality-1 variable shared by >= 2 maximal cliques plus a third clique on the same separator and an unlucky tie-break", ["C14"], False),
+    "C14-F": ("C14", "to_factor_graph sorts the factor's own scope list in place (axes relabelled, values not transposed)", "a factor whose variables are not in sorted order", ["C14", "C16"], False),
+    "C15-E": ("C15", "DAG.add_edges_from(weights=...) inserts in bulk through networkx, bypassing BayesianNetwork.add_edge's cycle / self-loop checks", "add_edges_from with weights where an edge closes a cycle or is a self loop", ["C15"], False),
+    "C15-F": ("C15", "remove_node marginalises the children's CPDs only when the removed node itself has a CPD", "partially parameterised model: removed node without CPD, child with a CPD conditioned on it", ["C15"], False),
+    "C16-E": ("C16", "rejection_sample's no-evidence shortcut runs before seeding and does not forward the seed", "rejection_sample(evidence=[], seed=s)", ["C07"], False),
+    "C16-F": ("C16", "message-passing BP normalises the single incoming message in place (the unary factor's / virtual evidence's own array)", "loop-free factor graph with an unnormalised unary factor or unnormalised virtual evidence", ["C16"], False),
+    "C17-E": ("C17", "evidence entered into the first clique potential containing the variable only", "forward_inference with slice-0 evidence on a variable lying in two cliques", ["C17"], False),
+    "C17-F": ("C17", "initialize_initial_state iterates over slice-0 CPDs only", "a template whose intra-slice CPDs are given for slice 1 only", ["C17"], False),
     "C17-B": ("C17", "initialize_initial_state pairs parent cardinalities with reversed parent names", "a CPD given for one slice with >= 2 same-slice parents of different cardinalities", ["C17"], True),
 }
 
